@@ -1,6 +1,6 @@
 #!/usr/bin/env python3
 """Generates the LocalNetwork problems of the C04 history explorer (committed
-output: net2d.gkf, levfree.gkf, net2dfree.gkf, bridge2d.gkf)."""
+output: net2d.gkf, levfree.gkf, net2dfree.gkf, bridge2d.gkf, net3dh.gkf)."""
 import sys, os
 sys.path.insert(0, os.path.join(os.path.dirname(os.path.abspath(__file__)), "..", "..", "lib"))
 from gnet import *
@@ -51,3 +51,17 @@ for t in ['P', 'Q']:
 c2 = Cluster('obs', obs)
 net.clusters = [c1, c2]; fill_values(net)
 open(os.path.join(here, 'bridge2d.gkf'), 'w').write(to_gkf(net))
+# 5. 3-D polar network with instrument and target heights (dh reductions are cached inside the observations)
+net = Net(**{'sigma-apr': 10, 'conf-pr': 0.95, 'tol-abs': 1000, 'sigma-act': 'aposteriori'})
+net.points = [Pt('A', 0, 0, 10, xy='fix', zs='fix'), Pt('B', 200, 0, 14, xy='fix', zs='fix'), Pt('C', 0, 200, 8, xy='fix', zs='fix'),
+              Pt('P', 100, 100, 20, xy='adj', zs='adj', ax=(0.02, -0.015), az=0.01)]
+cl = []; k = 0
+for st, (fd, td) in zip(['A', 'B', 'C'], [(1.5, 1.8), (1.4, 0.0), (0.0, 1.7)]):
+    obs = []
+    k += 1; obs.append(Obs('s-distance', st, 'P', stdev=5, from_dh=fd, to_dh=td, err=noise(k) * 0.002))
+    k += 1; obs.append(Obs('z-angle', st, 'P', stdev=10, from_dh=fd, to_dh=td, err=noise(k) * 0.0010))
+    for t in ['A', 'B', 'C', 'P']:
+        if t != st: k += 1; obs.append(Obs('direction', st, t, stdev=10, err=noise(k) * 0.0010))
+    cl.append(Cluster('obs', obs, frm=st, zero=12.5))
+net.clusters = cl; fill_values(net)
+open(os.path.join(here, 'net3dh.gkf'), 'w').write(to_gkf(net))
